@@ -5,7 +5,7 @@ import ring_common as R
 
 PROP = 'C14'
 BUILDS, TRANSLATORS, MINIMISE, SHARD_TIMEOUT, ASSUMPTIONS, RULE = R.BUILDS, R.TRANSLATORS, R.MINIMISE, R.SHARD_TIMEOUT, R.ASSUMPTIONS, R.RULE
-EXTRA_THEOREM_MODULES = R.EXTRA_THEOREM_MODULES
+EXTRA_THEOREM_MODULES = R.EXTRA_THEOREM_MODULES + ['DcVerif.Lemmas.RingMultiSerial']
 classify, nontrivial = R.classify, R.nontrivial
 
 
@@ -28,9 +28,9 @@ def generate(rng, tier):
 def signatures(case, lines):
     out = []
     for l in lines:
-        m = re.search(r'all claimants published but cursor=(\d+) highest-claimed=(\d+) producer=multi', l)
+        m = re.search(r'all claimants published but cursor=(\d+) highest-claimed=(\d+) producer=multi lwRegressed=(\w+)', l)
         if m and int(m.group(1)) < int(m.group(2)):
-            out.append({'producer': 'multi', 'kind': 'stranded'})
+            out.append({'producer': 'multi', 'kind': 'stranded', 'lw_regressed': m.group(3) == 'true'})
         else:
             out.append(None)
     return out
